@@ -158,10 +158,9 @@ impl FencedString {
         if self.buffer.chars().all(char::is_lowercase) {
             None
         } else {
-            Some(Self {
-                buffer: self.buffer.to_lowercase(),
-                char_starts: self.char_starts.clone(),
-            })
+            // lower-casing can change the UTF-8 width of a character (or expand it to several), so the
+            // char-start table has to be rebuilt
+            Some(Self::from_str(&self.buffer.to_lowercase()))
         }
     }
 
